@@ -54,5 +54,78 @@ def fake_time():
     return v
 
 
-FUNCS = {'key_at': key_at, 'same_dict': same_dict, 'call': call, 'call_raises': call_raises,
+def n_groups(fam):
+    return len(fam)
+
+
+def group(fam, i):
+    members = sorted(fam, key=lambda S: (min(S) if S else -1))
+    return members[i]
+
+
+def rangeset(a, b, s):
+    return frozenset(range(a, b, s))
+
+
+def pt(a, s, k):
+    return a + k * s
+
+
+FUNCS = {'n_groups': n_groups, 'group': group, 'rangeset': rangeset, 'pt': pt,
+         'key_at': key_at, 'same_dict': same_dict, 'call': call, 'call_raises': call_raises,
          'calls_made': calls_made, 'clock_reads': clock_reads, 'clock_at': clock_at}
+
+
+# ---- C06: the property statement as an executable oracle over every rank of the world
+def kaisa_world_consistent(self, work, W, fraction, colocate):
+    from kfac.assignment import KAISAAssignment
+    calls = {}
+
+    def mk(rank):
+        log = []
+
+        def gf(ranks):
+            log.append(tuple(sorted(ranks)))
+            return ('group', tuple(sorted(ranks)))
+        a = KAISAAssignment(work, local_rank=rank, world_size=W, grad_worker_fraction=fraction,
+                            group_func=gf, colocate_factors=colocate)
+        calls[rank] = log
+        return a
+    ranks = range(W) if W <= 24 else sorted({0, 1, W - 1, W // 2, self.local_rank, (self.local_rank * 7 + 3) % W})
+    world = {r: mk(r) for r in ranks}
+    g = self.grad_workers
+    p = W // g
+    cols = KAISAAssignment.partition_grad_workers(W, g)
+    rows = KAISAAssignment.partition_grad_receivers(W, g)
+    for fam, size, n in ((cols, g, p), (rows, p, g)):
+        assert len(fam) == n and all(len(S) == size for S in fam), 'groups are not equal parts'
+        assert sorted(x for S in fam for x in S) == list(range(W)), 'groups do not partition the world'
+    for r, a in world.items():
+        assert a._inv_assignments == self._inv_assignments, f'rank {r} derives different inverse workers'
+        assert calls[r] == calls[self.local_rank] if self.local_rank in calls else True, 'group creation order differs'
+        assert a.broadcast_gradients() == (g < W) and a.broadcast_inverses() == (g > 1), 'broadcast flags'
+        for layer in work:
+            wg = a._grad_worker_groups[layer].ranks
+            rg = a._grad_receiver_groups[layer].ranks
+            assert wg in cols and rg in rows and r in rg, 'groups are not a column / the own row'
+            assert all(a.inv_worker(layer, f) in wg for f in work[layer]), 'inverse worker outside the worker group'
+            src = a.src_grad_worker(layer)
+            assert src in wg and src in rg, f'rank {r}: source {src} not a grad worker inside own receiver group'
+            assert len(wg & rg) == 1, 'more than one candidate source'
+            assert a.is_grad_worker(layer) == (r in wg), 'is_grad_worker'
+            if r in wg:
+                assert src == r, 'grad worker must be its own source'
+    return True
+
+
+def _wrap_assert(f):
+    def g(*a, **k):
+        try:
+            return f(*a, **k)
+        except AssertionError as ex:
+            g.last = str(ex)
+            return False
+    return g
+
+
+FUNCS['kaisa_world_consistent'] = _wrap_assert(kaisa_world_consistent)
